@@ -134,6 +134,12 @@ var pins = []pin{
 		slow.Batch = 3                                      // sample batches: lines 1-3, then lines 4-5
 		slow.Points = "agg.afterSampleBatch=sleep:300ms:n1" // one render between them, none before the last
 		runSpec(c, cs, s, []*Variant{oneFile("base-snap", "snap", 5), slow}, dir)
+		// padding: the key column is as wide as the longest key drawn SO FAR; in a single render row "a" is drawn
+		// before the long key (narrow), after an earlier render that has seen the long key it is drawn wide
+		p := baseSpec("bars", mkLines([5]string{"a", "x", "5"}, [5]string{"a_much_longer_key", "x", "1"}, [5]string{"a", "x", "1"}), fld(1), fld(2), fld(3))
+		p.CmdArgs = []string{"--sort", "text"}
+		p.Monotone = false
+		runSpec(c, cs, p, []*Variant{oneFile("base-snap", "snap", 3), slowFile("v1-slow", 3)}, dir)
 	}},
 	{"histo-zero-count-long-key", func(c *run.Ctx, cs Case, dir string) {
 		// WriteForLine answers a key wider than the key column with fullRender(), which skips rows whose value is <= 0
